@@ -26,6 +26,14 @@ fn env_seed() -> u64 {
 }
 
 fn budget(prop: &str, tier: &str) -> u64 {
+    if prop == "C15" {
+        // the enumerated sub-spaces come first, the seeded part after them
+        return if tier == "thorough" {
+            crate::c15::truncation_space() + crate::c15::replacement_space() + 40000
+        } else {
+            crate::c15::truncation_space() + 3000
+        };
+    }
     let quick = match prop {
         "C15" => 6000,
         "C16" => 4000,
@@ -341,6 +349,7 @@ fn spawn_worker(
         .arg(total.to_string())
         .arg(from.to_string())
         .arg(if recheck { "recheck" } else { "norecheck" })
+        .env("VERIF_TIER", std::env::var("SIMCTL_TIER").unwrap_or_else(|_| "quick".to_owned()))
         .stdin(Stdio::null())
         .stdout(Stdio::piped())
         .stderr(Stdio::null());
@@ -395,6 +404,8 @@ pub fn check_main(args: &[String]) -> i32 {
     if tier != "quick" && tier != "thorough" {
         tier = "quick".to_owned();
     }
+    std::env::set_var("SIMCTL_TIER", &tier);
+    std::env::set_var("VERIF_TIER", &tier);
     let seed = env_seed();
     let total = runs_override.unwrap_or_else(|| budget(&prop, &tier));
     let t0 = Instant::now();
